@@ -3,7 +3,8 @@ import McpModel.Sessions.Monitor
 /-!
 E7 — requests that `StreamableHTTPHandler` refuses **before the session layer** (mcp/streamable.go
 `serveStatefulPOST` / `serveStateless`: the `Content-Type` check (415), the `Accept` check (400), `getServer`
-returning nil on the creation path (400); `serveStatefulGET`: the `Accept` check (400)).  They come before the
+returning nil on the creation path (400); `serveStatefulGET`: the `Accept` check (400); `ServeHTTP` itself: DNS rebinding protection and cross-origin protection, 403 —
+the same status as a user mismatch, from the session's owner too).  They come before the
 `Mcp-Session-Id` header is even read, so C11 demands of them exactly one thing: **no effect** — whatever id and
 identity they carry, no session is looked up, created or kept alive, no id is minted, no idle timer is stopped or
 re-armed, no handler runs.
@@ -21,6 +22,8 @@ inductive Why where
   | accept       -- POST whose Accept lacks application/json or text/event-stream
   | getAccept    -- GET whose Accept lacks text/event-stream
   | noServer     -- POST without a session id for which `getServer` returns nil
+  | origin       -- POST from another origin (`Sec-Fetch-Site: cross-site`) with `CrossOriginProtection` configured
+  | host         -- request that arrived on a loopback address with a foreign `Host` (DNS rebinding protection)
 deriving DecidableEq, Repr
 
 /-- regenerated from mcp/streamable.go on every run -/
@@ -29,6 +32,8 @@ def Why.status (stateless : Bool) : Why → Nat
   | .accept => if stateless then Generated.Sessions.statelessBadAccept else Generated.Sessions.statefulBadAccept
   | .getAccept => if stateless then Generated.Sessions.statelessNotPost else Generated.Sessions.statefulGETBadAccept
   | .noServer => if stateless then Generated.Sessions.statelessNoServer else Generated.Sessions.statefulNoServer
+  | .origin => Generated.Sessions.serveCrossOrigin
+  | .host => Generated.Sessions.serveBadHost
 
 /-- The model's observation of a refused request: the status, and the unchanged world. -/
 def gateModel (d : RState) (w : Why) : Option (RState × Obs) :=
